@@ -236,6 +236,18 @@ func (r *Recorder) Emit(ev string, a Args, res string, te pt.TableEngine, t *pt.
 		l.Pre = []PState{*pre}
 	}
 	l.St = r.project(te, t)
+	if ev == "q" || ev == "end" {
+		// quiescent snapshots must not be torn by a timer-driven engine step: take them until two agree
+		for i := 0; i < 4; i++ {
+			again := r.project(te, t)
+			a, _ := json.Marshal(l.St)
+			b, _ := json.Marshal(again)
+			if string(a) == string(b) {
+				break
+			}
+			l.St = again
+		}
+	}
 	r.enc.Encode(l)
 	r.lines++
 	atomic.AddInt64(&r.events, 1)
